@@ -18,11 +18,11 @@ COMMON_NOTE = ("Trusted base: CPython's ast parse of /repo/fim is the program; c
 P = {
  'C01': dict(
     technique='AST wiring rules over the serialization pipeline (format dispatch, must-pass-through, def-use of the graph id, copy completeness)',
-    text='Decides structural necessary conditions of the round trip: every serialisable format has a reader in READ_FORMATS and a branch in serialize_graph; the GraphML producers pass through the label-markup step whose two loops set label/labels on every element; the four import entry points reach one reader and a store insert whose graph id is the id the returned handle is built with; add_graph stamps GraphID on every node after the NodeID check and replaces an existing graph of that id found in the store; extract_graph copies node and edge data; identity properties are stamped at creation. Value fidelity through networkx/lxml is not decided. Also decided: value flow (CFG taint) of GraphML text through the label markup, the GraphML writer is not switched to options the default reader cannot undo, and every constant the library itself stores in a JSON-typed property is skipped by graph validation (guard partially evaluated on the constant).',
+    text='Decides structural necessary conditions of the round trip: every serialisable format has a reader in READ_FORMATS and a branch in serialize_graph; the GraphML producers pass through the label-markup step whose two loops set label/labels on every element; the four import entry points reach one reader and a store insert whose graph id is the id the returned handle is built with; add_graph stamps GraphID on every node after the NodeID check and replaces an existing graph of that id found in the store; extract_graph copies node and edge data; identity properties are stamped at creation. Value fidelity through networkx/lxml is not decided. Also decided: value flow (CFG taint) of GraphML text through the label markup, the GraphML writer is not switched to options the default reader cannot undo, and every constant the library itself stores in a JSON-typed property is skipped by graph validation (guard partially evaluated on the constant). The replacement of a stored graph of the same id is guarded by nothing but the lookup having found it.',
     ref='3 C01'),
  'C02': dict(
     technique='table-agreement analysis: writer/reader/setter/unset-map rows extracted from the AST and compared per sliver class; codec pairing; dispatch agreement',
-    text='Decides that for every sliver class the set of properties written to the graph equals the set read back, that each row uses matching encode/decode codecs and the same graph property constant, that every settable stored property has an unset mapping, that each model element class uses the writer/reader of its own kind, and that deep-dictionary child keys agree and recurse. Field-wise value equality is not decided. Also decided: the deep graph writers store the children of a sliver under no condition other than the sliver having that container.',
+    text='Decides that for every sliver class the set of properties written to the graph equals the set read back, that each row uses matching encode/decode codecs and the same graph property constant, that every settable stored property has an unset mapping, that each model element class uses the writer/reader of its own kind, and that deep-dictionary child keys agree and recurse. Field-wise value equality is not decided. Also decided: the deep graph writers store the children of a sliver under no condition other than the sliver having that container. A composite value joined from n parts with a separator is split back with a bound of n-1 from the side whose part may contain the separator.',
     ref='3 C02'),
  'C03': dict(
     technique='abstract-domain check of encoder drop predicates against admitted field types and defaults; guard dominance on the CFG; purity (no store through the input); None-dereference check of encoders',
@@ -38,23 +38,23 @@ P = {
     ref='3 C05'),
  'C06': dict(
     technique='filter-loop integrity, mutation-under-iteration detection, copy provenance of filtered graphs, exception-scope of lazy generators',
-    text='Decides: each drop-list filter appends its own loop variable; no collection is mutated while its live view is iterated; relation/label filtering and edge dropping operate on a copy returned by extract_graph (and extract_graph returns a copy in both stores); NetworkXNoPath raised by lazy path generators is consumed inside the guarded region; helper traversals use schema pairs. Exactness over all graphs is not decided. Also decided: a drop list is emptied where its filter loop starts when that loop runs once per iteration of an enclosing loop.',
+    text='Decides: each drop-list filter appends its own loop variable; no collection is mutated while its live view is iterated; relation/label filtering and edge dropping operate on a copy returned by extract_graph (and extract_graph returns a copy in both stores); NetworkXNoPath raised by lazy path generators is consumed inside the guarded region; helper traversals use schema pairs. Exactness over all graphs is not decided. Also decided: a drop list is emptied where its filter loop starts when that loop runs once per iteration of an enclosing loop. The path-with-hops query rejects a candidate path only for a missing hop or length (the additional induced-subgraph acyclicity test of the NetworkX backend is a recorded known finding).',
     ref='3 C06'),
  'C07': dict(
     technique='vocabulary agreement between enums and the rule file; containment-schema extraction and agreement; guard dominance for uniqueness; cache-update pairing; loop-index discipline; view immutability',
-    text='Decides that the published rule vocabularies contain every enum member the API can create, that all readers/removers traverse pairs of the containment schema defined by the writers, that node and owner edge are created together, that creation paths are dominated by their uniqueness guard and node ids are unique across classes, that read-only views expose no mutator and no cache escapes, that handle caches are updated on add, and that derived-id loop indices are advanced once per iteration. Invariants over all histories are not decided.',
+    text='Decides that the published rule vocabularies contain every enum member the API can create, that all readers/removers traverse pairs of the containment schema defined by the writers, that node and owner edge are created together, that creation paths are dominated by their uniqueness guard and node ids are unique across classes, that read-only views expose no mutator and no cache escapes, that handle caches are updated on add, and that derived-id loop indices are advanced once per iteration. Invariants over all histories are not decided. Also decided: Link constructors accept Interface objects only; every sliver class declares the type enumeration its set_type asserts; the interface kind produced for each component type by generate_component (evaluated per ComponentType member) is one the rule file knows; the name-uniqueness listing compared is not filtered by element kind.',
     ref='3 C07'),
  'C08': dict(
     technique='sibling agreement of removal paths (cache coherence), schema coverage of removal cascades, collect-before-delete ordering on the CFG, disconnect-before-remove must-precede',
-    text='Decides that every removal path filters the cache of the object whose child was removed from that same cache, that each remove_* recurses exactly over the owned schema pairs with the documented sharing conditions (only child, exactly two ends) and passes delete_parent=False where the parent must survive, that neighbour lists are collected before the element is deleted, and that Topology/Node removals disconnect service-port peers first. The frame condition is not decided.',
+    text='Decides that every removal path filters the cache of the object whose child was removed from that same cache, that each remove_* recurses exactly over the owned schema pairs with the documented sharing conditions (only child, exactly two ends) and passes delete_parent=False where the parent must survive, that neighbour lists are collected before the element is deleted, and that Topology/Node removals disconnect service-port peers first. The frame condition is not decided. Also decided: the peer whose link is removed is exactly the peer found through the removed interface, and caches of objects created and rolled back inside one call are exempt by construction (never published).',
     ref='3 C08'),
  'C09': dict(
     technique='validate-before-mutate ordering over constructor CFGs with a MUT/REJ call-graph summary; handler-breadth check of the rollback; eager evaluation of arguments consumed after the first mutation',
-    text='Decides that in the five element constructors no rejecting statement is reachable after the first graph mutation outside a compensated try, that the rollback handler covers every exception class the guarded body can raise and undoes each creation step, that uniqueness checks dominate inserts, and reports composite operations without compensation (known findings). Atomicity for rejections that depend on stored ids is not decided. Also decided: the creation step that receives the caller\'s **kwargs is the first creation step of a composite (or compensated), and a rollback handler that removes id X does not also guard the call that creates X.',
+    text='Decides that in the five element constructors no rejecting statement is reachable after the first graph mutation outside a compensated try, that the rollback handler covers every exception class the guarded body can raise and undoes each creation step, that uniqueness checks dominate inserts, and reports composite operations without compensation (known findings). Atomicity for rejections that depend on stored ids is not decided. Also decided: the creation step that receives the caller\'s **kwargs is the first creation step of a composite (or compensated), and a rollback handler that removes id X does not also guard the call that creates X. An element is recorded for compensation only after the step that creates it, compensation addresses the created element\'s own node id, and the link writer verifies every referenced interface id is a stored ConnectionPoint before inserting the Link.',
     ref='3 C09'),
  'C10': dict(
     technique='constraint-table exhaustiveness over enums, name resolution of listed properties against getters and readers, comparator normalisation per column, must-pass-through of guardrails, dead-comparison detection',
-    text='Decides that each constraint table has a row per enum member, that every listed property resolves to a populated getter, that every column is consulted with the right comparator behind the NO_LIMIT test, that every connect path passes the guardrails, that required-property tests reject unset values, and that the declared-site check compares against the inferred site. Accept/reject outcomes over the parameter product are not decided. Also decided: the site limit is compared with the complete set of sites (after the collecting loop, or inside it after the current site is added).',
+    text='Decides that each constraint table has a row per enum member, that every listed property resolves to a populated getter, that every column is consulted with the right comparator behind the NO_LIMIT test, that every connect path passes the guardrails, that required-property tests reject unset values, and that the declared-site check compares against the inferred site. Accept/reject outcomes over the parameter product are not decided. Also decided: the site limit is compared with the complete set of sites (after the collecting loop, or inside it after the current site is added). The folded constraint tables are compared with the pinned copy data/c10_constraints.json (the property\'s statement fixes these numbers); guardrail rejections are evaluated on every feasible path to the creation, and a site mismatch must be rejectable when a site is declared.',
     ref='3 C10'),
  'C11': dict(
     technique='append/pop pairing by dominance, attribute-table agreement, dispatch LUT exhaustiveness, def-before-use ordering of the in-slice port set, unconditional tally increments',
@@ -62,7 +62,7 @@ P = {
     ref='3 C11'),
  'C12': dict(
     technique='guard dominance for delegation field writes, key-constant agreement of encoder/decoder, loop-carried guard state, index rebuild discipline',
-    text='Decides that delegation details and the delegations table are only written behind their type/format/duplicate guards evaluated against live state, that to_json/from_json use the same keys for all three formats, that pool regrouping writes and reads the same fields and rebuilds its index from scratch, and that conflict checks precede graph writes. The identity pools->delegations->pools over all families is not decided. Also decided: encoder and decoder as (format, type) tables from path-sensitive evaluation; every field of a decoded entry is determined within its own loop iteration.',
+    text='Decides that delegation details and the delegations table are only written behind their type/format/duplicate guards evaluated against live state, that to_json/from_json use the same keys for all three formats, that pool regrouping writes and reads the same fields and rebuilds its index from scratch, and that conflict checks precede graph writes. The identity pools->delegations->pools over all families is not decided. Also decided: encoder and decoder as (format, type) tables from path-sensitive evaluation; every field of a decoded entry is determined within its own loop iteration. Per-node delegation containers are created only when the node has none yet (get-or-create).',
     ref='3 C12'),
  'C13': dict(
     technique='receiver analysis (mutations only on the clone), loop-range coverage, monotone keep-set construction, schema agreement of traces, partial-callee precondition, flag-scope analysis',
@@ -70,11 +70,11 @@ P = {
     ref='3 C13'),
  'C14': dict(
     technique='receiver analysis (sources never mutated), key agreement across the three uses of the contributing id, written-vs-undone property sets, ordering of rollback steps, flag-scope analysis, fresh-id-per-call',
-    text='Decides that merge mutates only the temporary clone and the combined model, that delegations/structural info/contributor lists are keyed by the real model id, that properties written by merge are handled by unmerge, that rollback deletes before re-homing, that snapshot ids are generated per call, that the one-side-speaks guard precedes the write and the write-back flag covers both delegation kinds. Order independence and merge/unmerge inversion as algebra are not decided. Also decided: what is merged in is the re-keyed temporary clone, never the source; what unmerge writes when a node\'s last delegation goes is a value the decoder reads back as absent.',
+    text='Decides that merge mutates only the temporary clone and the combined model, that delegations/structural info/contributor lists are keyed by the real model id, that properties written by merge are handled by unmerge, that rollback deletes before re-homing, that snapshot ids are generated per call, that the one-side-speaks guard precedes the write and the write-back flag covers both delegation kinds. Order independence and merge/unmerge inversion as algebra are not decided. Also decided: what is merged in is the re-keyed temporary clone, never the source; what unmerge writes when a node\'s last delegation goes is a value the decoder reads back as absent. The contributor appended is the one decoded from the node in the same iteration and written back to it; delegation clean-up on unmerge does not depend on the remaining contributor list.',
     ref='3 C14'),
  'C15': dict(
     technique='structural premises of point-wise integer arithmetic checked on the AST (operator lifts, operand purity, comparator mirror, truthiness-free equality); the algebraic laws follow by a stated lemma',
-    text='Decides the property whole under the premise that fields hold ints: + and - are point-wise lifts over all fields into a fresh object in operand order, operands (and values handed to FreeCapacity) are never stored into or mutated, comparisons are mirrored field-wise, negative_fields is {f | v<0}, equality is field-wise with no truthiness shortcut on values that can be all-zero, results bypass the non-negativity validator and are printable.',
+    text='Decides the property whole under the premise that fields hold ints: + and - are point-wise lifts over all fields into a fresh object in operand order, operands (and values handed to FreeCapacity) are never stored into or mutated, comparisons are mirrored field-wise, negative_fields is {f | v<0}, equality is field-wise with no truthiness shortcut on values that can be all-zero, results bypass the non-negativity validator and are printable. Nothing rewrites the free capacity after the subtraction (no clamping).',
     ref='3 C15'),
  'C16': dict(
     technique='regex-application analysis (full-match semantics per call site), regex AST hygiene via re._parser, entry-point reachability of validators, measured-quantity agreement of size checks',
